@@ -285,6 +285,17 @@ def cross_histories(tier):
         configs.append(('Html', {'process_html_tokens': False}))
     probes = [D.PROBES[n] for n in D.SENTINELS]
     out = []
+    all_configs = [(rid, opts) for rid in W.RENDERER_IDS for opts in W.OPTIONS[rid]]
+    for i, (r1, o1) in enumerate(all_configs if tier != 'thorough' else []):
+        # quick: every ordered pair of option sets of the SAME renderer class (an option of one instance must not reach the next)
+        first = {'k': 'CTX', 'R': r1, 'opts': o1, 'exit': 'normal', 'steps': [{'k': 'RENDER', 'doc': p} for p in probes]}
+        for j, (r2, o2) in enumerate(all_configs):
+            if r2 != r1 or (not o1 and not o2):
+                continue
+            rot = (i + j) % len(probes)
+            ps = probes[rot:] + probes[:rot]
+            out.append(('cross', [first, {'k': 'CTX', 'R': r2, 'opts': o2, 'exit': 'normal',
+                                          'steps': [{'k': 'RENDER', 'doc': p} for p in ps]}]))
     for i, (r1, o1) in enumerate(configs):
         first = {'k': 'CTX', 'R': r1, 'opts': o1, 'exit': 'normal', 'steps': [{'k': 'RENDER', 'doc': p} for p in probes]}
         for j, (r2, o2) in enumerate(configs):
